@@ -133,6 +133,8 @@ def classify(full, short, fn=None):
         if short == "Decimal::neg":
             return "total", TOTAL[short]
         if re.search(r"std::ops::(Index|IndexMut)\b", tr or full):
+            if "RangeFull" in full:
+                return "total", "x[..] is the whole string / slice"
             return "partial", "indexing operator (panics when out of range / key absent)"
         if short == "DateTime::sub" :
             return "total", "DateTime - DateTime = signed_duration_since; both operands are valid DateTimes so the difference fits TimeDelta"
